@@ -91,6 +91,7 @@ func (cdb *CachedDatabase) CleanupExpiredCache() map[string]int {
 func (cdb *CachedDatabase) UpdateDatabase(commands []Command) {
 	cdb.Database.Commands = commands
 	cdb.Database.BuildUniversalIndex() // Rebuild universal index
+	cdb.Database.buildTFIDFSearcher()  // Rebuild the re-ranker and the command index for the new list
 	cdb.InvalidateCache()              // Invalidate cache when database is updated
 }
 
